@@ -361,6 +361,12 @@ func c14DialE2E(cc c14Case) (string, string) {
 
 // c14LibLib: Dial against Accept for a pair of modes; both ends must hold the same parameters.
 func c14LibLib(clientMode, serverMode int) (string, string) {
+	return libLibExchange(clientMode, serverMode, false)
+}
+
+// libLibExchange: with perMsgCtx every read runs under its own context, cancelled as soon as the read has returned
+// (the idiom of the package's examples), and some messages go through a chunked Writer.
+func libLibExchange(clientMode, serverMode int, perMsgCtx bool) (string, string) {
 	var srv *websocket.Conn
 	rt := rtFunc(func(req *http.Request) (*http.Response, error) {
 		w := newHijackRW(nil)
@@ -395,12 +401,37 @@ func c14LibLib(clientMode, serverMode int) (string, string) {
 		p := historyMsg(i, 800+100*i)
 		for _, dir := range []struct{ from, to *websocket.Conn }{{cl, srv}, {srv, cl}} {
 			errc := make(chan error, 1)
-			go func() { errc <- dir.from.Write(ctx, websocket.MessageBinary, p) }()
-			_, got, err := dir.to.Read(ctx)
-			if err != nil || string(got) != string(p) {
-				return "lib-lib-exchange", fmt.Sprintf("modes %d/%d message %d: err=%v", clientMode, serverMode, i, err)
+			dir := dir
+			go func() {
+				if perMsgCtx && i%2 == 1 {
+					w, err := dir.from.Writer(ctx, websocket.MessageBinary)
+					if err == nil {
+						if _, err = w.Write(p[:len(p)/2]); err == nil {
+							if _, err = w.Write(p[len(p)/2:]); err == nil {
+								err = w.Close()
+							}
+						}
+					}
+					errc <- err
+					return
+				}
+				errc <- dir.from.Write(ctx, websocket.MessageBinary, p)
+			}()
+			rctx, rcancel := ctx, context.CancelFunc(func() {})
+			if perMsgCtx {
+				rctx, rcancel = context.WithTimeout(ctx, 5*time.Second)
 			}
-			<-errc
+			_, got, err := dir.to.Read(rctx)
+			rcancel()
+			if err != nil || string(got) != string(p) {
+				return "lib-lib-exchange", fmt.Sprintf("modes %d/%d message %d (per-message read contexts: %v): err=%v", clientMode, serverMode, i, perMsgCtx, err)
+			}
+			if werr := <-errc; werr != nil {
+				return "lib-lib-exchange", fmt.Sprintf("modes %d/%d message %d (per-message read contexts: %v): write failed: %v", clientMode, serverMode, i, perMsgCtx, werr)
+			}
+			if perMsgCtx {
+				time.Sleep(2 * time.Millisecond) // the connection is idle, the finished read's context is cancelled
+			}
 		}
 	}
 	return "", ""
